@@ -97,6 +97,10 @@ def check_tbl(spec, ctx):
             ctx.nt("several_sequences_with_genes")
     if spec["seed"] == 0:
         ctx.label("seed0")
+    if any(t.get("frameshift") for gn in genes for t in gn["transcripts"]):
+        # a feature table has no per-exon frames: the CDS is written as read contiguously from its 5' frame, and the partial marks
+        # and the pseudo flag describe that reading
+        ctx.label("frames_model_a_frameshift")
     try:
         text = export(spec, ctx=ctx)
     except BioCantorException as e:
@@ -250,7 +254,7 @@ def _one_collection(draw, min_genes=1, tag=""):
         gtype = "protein_coding" if coding else draw(st.sampled_from(["ncRNA", "tRNA", "rRNA", "misc_RNA", "lncRNA"]))
         txs, seen_ = [], set()
         for j in range(draw(st.sampled_from([1, 1, 2, 3]))):
-            t = draw(S.transcript_spec(max_exons=3, max_len=12, strand=strand, coding=coding, zero_gap_cds=True, frameshift_prob=0, start_min=cursor, start_max=2))
+            t = draw(S.transcript_spec(max_exons=3, max_len=12, strand=strand, coding=coding, zero_gap_cds=True, frameshift_prob=5, start_min=cursor, start_max=2))
             key_ = json.dumps([t["exons"], t.get("cds")])
             if key_ in seen_:
                 continue
